@@ -61,3 +61,64 @@ pub fn drive(t: &mut Tracer, r: &mut Rng, n: usize) {
         t.reset();
     }
 }
+
+/// toString with a precision and a rounding mode (validated by Trace_RoundedFormat): values with ties at the precision over-sampled
+pub fn drive_tostring(t: &mut Tracer, r: &mut Rng, n: usize) {
+    while t.n < n {
+        let mode = *r.pick(&MODES);
+        let p: i64 = *r.pick(&[-2i64, 0, 1, 2, 3, 4, 5, 6, 7, 8, 9][..]);
+        let nn: i128 = if p == -2 { 60_000_000_000 } else { 10i128.pow((9 - p) as u32) };
+        let mut args = json!({"prec": if p == -2 { -1 } else { p }, "su": if p == -2 { "minute" } else { "" }, "mode": mode});
+        if r.chance(1, 10) { args.as_object_mut().unwrap().remove("mode"); }
+        match r.range(0, 4) {
+            4 => {
+                // a duration whose time total sits on / next to a tie of the precision; days and larger units ride along unrounded
+                if p == -2 { continue; }
+                let qmax = if r.chance(1, 2) { 200_000 } else { 9_000_000_000_000_000 / nn.max(1_000_000) };
+                let q = r.range128(0, qmax);
+                let total = q * nn + tie_biased_rem(r, nn);
+                let neg = r.chance(1, 2);
+                // spread the total over hours/minutes/seconds/sub-seconds in a random (unbalanced) way
+                let mut rest = total;
+                let h = if r.chance(1, 2) { let x = rest / 3_600_000_000_000; let x = if x > 0 { r.range128(0, x) } else { 0 }; rest -= x * 3_600_000_000_000; x } else { 0 };
+                let mi = if r.chance(1, 2) { let x = rest / 60_000_000_000; let x = if x > 0 { r.range128(0, x) } else { 0 }; rest -= x * 60_000_000_000; x } else { 0 };
+                let sec = rest / 1_000_000_000; rest %= 1_000_000_000;
+                let (ms, us, ns) = (rest / 1_000_000, rest / 1000 % 1000, rest % 1000);
+                let sg = |x: i128| big(if neg { -x } else { x });
+                let date = if r.chance(1, 3) { (r.range(0, 3) as i128, r.range(0, 14) as i128, r.range(0, 5) as i128, r.range(0, 40) as i128) } else { (0, 0, 0, 0) };
+                args["v"] = json!({"y": sg(date.0), "mo": sg(date.1), "w": sg(date.2), "d": sg(date.3), "h": sg(h), "mi": sg(mi), "s": sg(sec), "ms": sg(ms), "us": sg(us), "ns": sg(ns)});
+                t.call("Fmt.Duration", args);
+            }
+            0 => {
+                let q = r.range128(0, DAY_NS / nn - 1);
+                let x = (q * nn + tie_biased_rem(r, nn)).min(DAY_NS - 1);
+                args["v"] = time_json(if r.chance(1, 6) { DAY_NS - 1 - r.range128(0, nn.min(DAY_NS - 1)) } else { x });
+                t.call("Fmt.PlainTime", args);
+            }
+            1 => {
+                let q = r.range128(0, DAY_NS / nn - 1);
+                let x = if r.chance(1, 4) { DAY_NS - 1 - r.range128(0, (nn / 2 + 2).min(DAY_NS - 1)) } else { (q * nn + tie_biased_rem(r, nn)).min(DAY_NS - 1) };
+                let day = match r.range(0, 5) { 0 => MAX_DAY, 1 => -MAX_DAY + 1, 2 => days_from_civil(9999, 12, 31), 3 => days_from_civil(-1, 12, 31), _ => any_day(r) };
+                let (y, m, d) = civil(day);
+                let mut v = time_json(x);
+                v["y"] = json!(y); v["m"] = json!(m); v["d"] = json!(d); v["cal"] = json!("iso8601");
+                args["v"] = v;
+                t.call("Fmt.PlainDateTime", args);
+            }
+            k => {
+                let qmax = MAX_INSTANT / nn;
+                let q = match r.range(0, 3) { 0 => r.range128(0, 3), 1 => qmax - r.range128(0, 1).min(qmax), _ => r.range128(0, qmax - 1) };
+                let mut x = q * nn + tie_biased_rem(r, nn);
+                if x > MAX_INSTANT { x = MAX_INSTANT; }
+                if r.chance(1, 2) { x = -x; }
+                if k == 2 { args["v"] = big(x); t.call("Fmt.Instant", args); }
+                else {
+                    let tz = *r.pick(&["UTC", "+05:30", "-08:00", "+14:00", "-00:01"][..]);
+                    args["v"] = json!({"ns": big(x), "tz": tz.chars().map(|c| c.to_string()).collect::<Vec<_>>(), "cal": "iso8601"});
+                    t.call("Fmt.ZonedDateTime", args);
+                }
+            }
+        }
+        if t.n % 50 == 0 { t.reset(); }
+    }
+}
